@@ -64,14 +64,14 @@ Definition exp_warn (ls : list nat) (i : nat) : list (nat * nat * nat) :=
   end.
 
 (* levels of the headings inside a token (in render order), given the heading offset in
-   force: a directive body is rendered with offset 0, an include with its own offset *)
+   force: a directive body keeps it, an include adds its own offset *)
 Fixpoint heading_levels (off : nat) (t : tok) : list nat :=
   match t with
   | THeading tag => [tag + off]
   | TPara => []
   | TContainer ts => flat_map (heading_levels off) ts
-  | TDirective _ ts => flat_map (heading_levels 0) ts
-  | TInclude o ts => flat_map (heading_levels o) ts
+  | TDirective _ ts => flat_map (heading_levels off) ts
+  | TInclude o ts => flat_map (heading_levels (off + o)) ts
   end.
 
 (* no directive in the token asks for match_titles *)
